@@ -214,12 +214,18 @@ def scenario(env, api, src, data, idx):
                 del tf
         elif api == 'with-open':
             try:
+                held = []
                 with H.TdmsFile.open(source) as tf:
                     for name, op in _safe_ops(tf):
                         try:
                             op()
                         except Exception:  # noqa
                             pass
+                    try:
+                        held.append(tf.data_chunks())
+                        next(held[-1])
+                    except Exception:  # noqa
+                        pass
             except Exception:  # noqa
                 tf = None
                 # open() itself raised -> not judged; a raise inside the block has already run __exit__
@@ -269,6 +275,17 @@ def scenario(env, api, src, data, idx):
             if tf is not None:
                 before = {}
                 ops = _safe_ops(tf)
+                # chunk iterators started, not exhausted and still referenced when the file is closed
+                held = []
+                try:
+                    held.append(tf.data_chunks())
+                    next(held[-1])
+                    for g_ in tf.groups():
+                        for c_ in g_.channels():
+                            held.append(c_.data_chunks())
+                            next(held[-1])
+                except Exception:  # noqa
+                    pass
                 for i, (name, op) in enumerate(ops):
                     try:
                         before[i] = ('ok', op())
@@ -280,7 +297,7 @@ def scenario(env, api, src, data, idx):
                     probs.append(('close-raised', 'close() raised %s' % type(e).__name__))
                 lk = env.leaks()
                 if lk:
-                    probs.append(('fd-leak', 'close() left %r open' % (lk,)))
+                    probs.append(('fd-leak', 'close() left %r open (%d partly consumed chunk iterators are still referenced)' % (lk, len(held))))
                 for i, (name, op) in enumerate(ops):
                     try:
                         got = op()
